@@ -170,8 +170,6 @@ def exact_table(points, bits):
 
 
 def run(ctx, prop, t, bits, nb):
-    if ctx.replay:
-        raise vf.InfraError("replay of tabulated events: re-run the check with the seed recorded in the evidence")
     ctx.model("IEEECheck.tla", "IEEECheckQuick.cfg", timeout=1200)
     rng = ctx.rng
     L = 64 // nb
@@ -179,7 +177,23 @@ def run(ctx, prop, t, bits, nb):
     plan = []
     meta = []     # per plan line: (fn, [points per lane])
     allpts = []
-    for fn in UNARY:
+    if ctx.replay:
+        # a replay file holds plan lines; the points (hence the Exact table entries) are the lanes of their operand rows
+        for line in lanes.replay_plan(ctx.replay):
+            f = line.split()
+            if f[2] != t or f[0] not in ("m1", "m2"):
+                continue
+            ra = bytes.fromhex(f[4])
+            xs = [int.from_bytes(ra[i * nb:(i + 1) * nb], "little") for i in range(L)]
+            if f[0] == "m1":
+                pts = [(f[1], x) for x in xs]
+            else:
+                rb = bytes.fromhex(f[5])
+                pts = [(f[1], x, int.from_bytes(rb[i * nb:(i + 1) * nb], "little")) for i, x in enumerate(xs)]
+            plan.append(line)
+            meta.append((f[1], pts))
+            allpts += pts
+    for fn in ([] if ctx.replay else UNARY):
         pts = points_unary(ctx, fn, bits, nsamp, ctx.q(12, 64))
         allpts += [(fn, p) for p in pts]
         ordered = sorted(pts, key=lambda b: fpgen.b2f(b, bits))
@@ -192,7 +206,7 @@ def run(ctx, prop, t, bits, nb):
                     chunk.append(seq[(i + len(chunk)) % len(seq)])
                 plan.append("m1 %s %s 0 %s - - -" % (fn, t, vf.hexrow(vf.pack_lanes(chunk, nb))))
                 meta.append((fn, [(fn, c) for c in chunk]))
-    for fn in BINARY:
+    for fn in ([] if ctx.replay else BINARY):
         pts = points_binary(ctx, fn, bits, ctx.q(1200, 30000))
         allpts += [(fn, x, y) for x, y in pts]
         for i in range(0, len(pts), L):
